@@ -240,6 +240,189 @@ fn instantiate(c: &Case) -> String {
     s
 }
 
+/// Names of primitive types: not reserved words, so a type or a type parameter can carry them; the scope that
+/// defines such an item no longer sees the primitive under its short name.
+const PRIMITIVES: [&str; 17] = ["bool", "usize", "u8", "str", "char", "isize", "i8", "i16", "i32", "i64", "i128", "u16", "u32", "u64", "u128", "f32", "f64"];
+
+/// (program name, role, module body with `§P` for the name, `run` body); the definitions sit in a module of their own
+/// whose only other names are `super::V` (all std traits) and `super::Yes` (all operators), so the scaffolding itself
+/// never mentions a primitive inside that module
+const PRIM_PROGS: [(&str, &str, &str, &str); 5] = [
+    ("std-traits-enum", "Type", "#[derive_ex(Clone, Debug, Default, Ord, PartialOrd, Eq, PartialEq, Hash)]\npub enum §P { #[default] A, B(super::V, super::V), C { q: super::V } }\n",
+     "let vals = [m::§P::A, m::§P::B(V(1), V(2)), m::§P::B(V(1), V(3)), m::§P::C { q: V(0) }];\nfor a in &vals { for b in &vals { out.push_str(&::std::format!(\"{}{:?}{:?},\", a == b, ::core::cmp::PartialOrd::partial_cmp(a, b), ::core::cmp::Ord::cmp(a, b))); } out.push_str(&::std::format!(\"{:?}|{:#?}|{}|{:?};\", a, ::core::clone::Clone::clone(a), dxrt::RecHasher::of(a), <m::§P as ::core::default::Default>::default())); }"),
+    ("std-traits-struct", "Type", "#[derive_ex(Clone, Debug, Default, Ord, PartialOrd, Eq, PartialEq, Hash)]\npub struct §P(pub super::V, #[ord(key = $.0)] pub super::V);\n",
+     "let vals = [m::§P(V(1), V(2)), m::§P(V(1), V(3)), m::§P(V(0), V(3))];\nfor a in &vals { for b in &vals { out.push_str(&::std::format!(\"{}{:?}{:?},\", a == b, ::core::cmp::PartialOrd::partial_cmp(a, b), ::core::cmp::Ord::cmp(a, b))); } out.push_str(&::std::format!(\"{}|{}|{};\", ::std::format!(\"{:?}\", ::core::clone::Clone::clone(a)).replace(\"§P\", \"X\"), dxrt::RecHasher::of(a), ::std::format!(\"{:?}\", <m::§P as ::core::default::Default>::default()).replace(\"§P\", \"X\"))); }"),
+    ("operators-struct", "Type", "#[derive_ex(Add, SubAssign, Neg, Not, Clone)]\npub struct §P(pub super::Yes, pub super::Yes);\n",
+     "let a = m::§P(Yes, Yes); let b = m::§P(Yes, Yes); let mut c = &a + &b; c -= &a; c -= ::core::clone::Clone::clone(&a); let d = -&c; let e = !d; let _ = (a + b) + &e; out.push_str(\"ok\");"),
+    ("std-traits-generic-enum", "TypeParam", "#[derive_ex(Clone, Debug, Default, Ord, PartialOrd, Eq, PartialEq, Hash)]\npub enum X<§P> { #[default] A, B(§P, super::V), C { q: ::core::option::Option<§P> } }\n",
+     "let vals = [m::X::<V>::A, m::X::B(V(1), V(2)), m::X::B(V(2), V(0)), m::X::C { q: ::core::option::Option::Some(V(0)) }];\nfor a in &vals { for b in &vals { out.push_str(&::std::format!(\"{}{:?}{:?},\", a == b, ::core::cmp::PartialOrd::partial_cmp(a, b), ::core::cmp::Ord::cmp(a, b))); } out.push_str(&::std::format!(\"{:?}|{:#?}|{}|{:?};\", a, ::core::clone::Clone::clone(a), dxrt::RecHasher::of(a), <m::X<V> as ::core::default::Default>::default())); }"),
+    ("operators-generic-struct", "TypeParam", "#[derive_ex(Add, SubAssign, Neg, Not, Clone)]\npub struct X<§P>(pub §P, pub super::Yes);\n",
+     "let a = m::X(Yes, Yes); let b = m::X(Yes, Yes); let mut c = &a + &b; c -= &a; c -= ::core::clone::Clone::clone(&a); let d = -&c; let e = !d; let _ = (a + b) + &e; out.push_str(\"ok\");"),
+];
+
+fn prim_program(pi: usize, name: &str) -> String {
+    let (_, _, def, run) = PRIM_PROGS[pi];
+    ::std::format!("use dxrt::V;\nuse dxrt::probe::Yes;\npub mod m {{\nuse derive_ex::derive_ex;\n{}}}\npub fn run() -> String {{\n    let mut out = String::new();\n    {}\n    out\n}}\n", def.replace("§P", name), run.replace("§P", name))
+}
+
+fn primitive_names(ctx: &Ctx, rep: &mut Report, only: Option<(usize, String)>) {
+    let mut todo: Vec<(usize, String)> = Vec::new();
+    match only {
+        Some(x) => {
+            todo.push((x.0, "Neutral".to_string()));
+            todo.push(x);
+        }
+        None => {
+            for pi in 0..PRIM_PROGS.len() {
+                todo.push((pi, "Neutral".to_string()));
+                for n in PRIMITIVES {
+                    todo.push((pi, n.to_string()));
+                }
+            }
+        }
+    }
+    let progs: Vec<String> = todo.iter().map(|(pi, n)| prim_program(*pi, n)).collect();
+    let mut o = runner::Opts::run("c13p");
+    o.per_file = 30;
+    let res = runner::run_cases(&progs.iter().map(|p| runner::Case { code: p.clone() }).collect::<Vec<_>>(), &o);
+    let mut neutral: Vec<Option<String>> = vec![None; PRIM_PROGS.len()];
+    for (k, (pi, n)) in todo.iter().enumerate() {
+        if n == "Neutral" {
+            if res[k].output.is_none() {
+                crate::report::machinery(&format!("C13: the neutral primitive-name program `{}` does not compile/run: {}", PRIM_PROGS[*pi].0, res[k].codes()));
+            }
+            neutral[*pi] = res[k].output.clone();
+        }
+    }
+    for (k, (pi, n)) in todo.iter().enumerate() {
+        rep.stats.states += 1;
+        rep.stats.transitions += 1;
+        rep.stats.terminals += 1;
+        rep.validated += 1;
+        let (pname, role, _, _) = PRIM_PROGS[*pi];
+        rep.case(&progs[k], n != "Neutral");
+        if n == "Neutral" {
+            continue;
+        }
+        let what = format!("primitive-name program `{pname}`, {role} named `{n}`");
+        let mut atoms = BTreeSet::new();
+        atoms.insert(format!("prog=primitive/{pname}"));
+        atoms.insert(format!("role={role}"));
+        atoms.insert(format!("name={n}"));
+        atoms.insert(format!("{role}={n}"));
+        let detail = json!({"kind": "primitive", "tier": ctx.tier.name(), "prim_prog": pi, "name": n, "role": role, "source": progs[k]});
+        let r = &res[k];
+        if !r.compiled() {
+            rep.outcome(&format!("does-not-compile:{}", r.codes()));
+            atoms.insert(format!("group={}", r.codes()));
+            rep.violation(Violation { symptom: format!("renamed-program-does-not-compile:{}", r.codes()), atoms, what: format!("{what}: {}", r.errors().iter().map(|e| format!("{} {}", e.code, runner::first_line(&e.message))).collect::<Vec<_>>().join(" | ")), detail, standalone: Some(format!("mod case {{\n{}\n}}\nfn main() {{ case::run(); }}\n", progs[k])) });
+            continue;
+        }
+        if let Some(pn) = &r.panicked {
+            rep.violation(Violation { symptom: "panic".into(), atoms, what: format!("{what}: {pn}"), detail, standalone: None });
+            continue;
+        }
+        let want = neutral[*pi].clone().unwrap_or_default();
+        let got = r.output.clone().unwrap_or_default();
+        rep.inner_evaluations += 1;
+        if got != want {
+            rep.outcome("trace-differs");
+            rep.violation(Violation { symptom: "behaviour-changes-under-renaming".into(), atoms, what: format!("{what}: trace `{}` differs from the neutral program's `{}`", got.chars().take(200).collect::<String>(), want.chars().take(200).collect::<String>()), detail, standalone: None });
+        } else {
+            rep.outcome("same-trace-as-neutral");
+        }
+    }
+}
+
+/// Definitions that come out of a `macro_rules!` macro: (name, definition with §N type name / §T field type / §F field
+/// name / §V variant name, `run` body written against X / V or Yes / a / B)
+const MACRO_PROGS: [(&str, &str, &str, &str); 5] = [
+    ("std-traits-named-struct", "V", "#[derive_ex(Clone, Debug, Default, Ord, PartialOrd, Eq, PartialEq, Hash)]\npub struct §N { pub §F: §T, pub q: §T }\n",
+     "let vals = [X { a: V(1), q: V(2) }, X { a: V(1), q: V(3) }, X { a: V(0), q: V(3) }];\nfor x in &vals { for y in &vals { out.push_str(&::std::format!(\"{}{:?}{:?},\", x == y, ::core::cmp::PartialOrd::partial_cmp(x, y), ::core::cmp::Ord::cmp(x, y))); } out.push_str(&::std::format!(\"{:?}|{:#?}|{}|{:?};\", x, ::core::clone::Clone::clone(x), dxrt::RecHasher::of(x), <X as ::core::default::Default>::default())); }"),
+    ("std-traits-enum", "V", "#[derive_ex(Clone, Debug, Default, Ord, PartialOrd, Eq, PartialEq, Hash)]\npub enum §N { #[default] A, §V(§T, §T), C { §F: §T } }\n",
+     "let vals = [X::A, X::B(V(1), V(2)), X::B(V(1), V(3)), X::C { a: V(0) }];\nfor x in &vals { for y in &vals { out.push_str(&::std::format!(\"{}{:?}{:?},\", x == y, ::core::cmp::PartialOrd::partial_cmp(x, y), ::core::cmp::Ord::cmp(x, y))); } out.push_str(&::std::format!(\"{:?}|{:#?}|{}|{:?};\", x, ::core::clone::Clone::clone(x), dxrt::RecHasher::of(x), <X as ::core::default::Default>::default())); }"),
+    ("cmp-helpers-tuple-struct", "V", "#[derive_ex(Ord, PartialOrd, Eq, PartialEq, Hash, Debug)]\npub struct §N(#[ord(reverse)] pub §T, #[ord(by = ::core::cmp::Ord::cmp)] #[hash(by = ::core::hash::Hash::hash)] pub §T, #[debug(ignore)] #[ord(ignore)] pub §T);\n",
+     "let vals = [X(V(1), V(2), V(0)), X(V(1), V(3), V(1)), X(V(0), V(3), V(2)), X(V(1), V(2), V(5))];\nfor x in &vals { for y in &vals { out.push_str(&::std::format!(\"{}{:?}{:?},\", x == y, ::core::cmp::PartialOrd::partial_cmp(x, y), ::core::cmp::Ord::cmp(x, y))); } out.push_str(&::std::format!(\"{:?}|{};\", x, dxrt::RecHasher::of(x))); }"),
+    ("operators-struct", "Yes", "#[derive_ex(Add, SubAssign, Neg, Not, Clone)]\npub struct §N(pub §T, pub §T);\n",
+     "let x = X(Yes, Yes); let y = X(Yes, Yes); let mut c = &x + &y; c -= &x; c -= ::core::clone::Clone::clone(&x); let d = -&c; let e = !d; let _ = (x + y) + &e; out.push_str(\"ok\");"),
+    ("deref-struct", "V", "#[derive_ex(Deref, DerefMut)]\npub struct §N(pub §T);\n",
+     "let mut x = X(V(3)); (*x).0 += 1; out.push_str(&::std::format!(\"{:?}\", *x));"),
+];
+const FRAGMENTS: [&str; 4] = ["ident", "ty", "tt", "path"];
+
+fn macro_program(pi: usize, frag: Option<&str>) -> String {
+    let (_, fty, def, run) = MACRO_PROGS[pi];
+    let d = match frag {
+        None => def.replace("§N", "X").replace("§T", fty).replace("§F", "a").replace("§V", "B"),
+        Some(f) => ::std::format!("macro_rules! mk {{ ($n:ident, $t:{f}, $f:ident, $v:ident) => {{ {} }} }}\nmk!(X, {fty}, a, B);\n", def.replace("§N", "$n").replace("§T", "$t").replace("§F", "$f").replace("§V", "$v")),
+    };
+    ::std::format!("use derive_ex::derive_ex;\nuse dxrt::V;\nuse dxrt::probe::Yes;\n{d}pub fn run() -> String {{\n    let mut out = String::new();\n    {run}\n    out\n}}\n")
+}
+
+fn macro_generated(ctx: &Ctx, rep: &mut Report, only: Option<(usize, String)>) {
+    let mut todo: Vec<(usize, Option<&str>)> = Vec::new();
+    for pi in 0..MACRO_PROGS.len() {
+        if let Some((p, _)) = &only {
+            if *p != pi {
+                continue;
+            }
+        }
+        todo.push((pi, None));
+        for f in FRAGMENTS {
+            if only.as_ref().map(|o| o.1 == f).unwrap_or(true) {
+                todo.push((pi, Some(f)));
+            }
+        }
+    }
+    let progs: Vec<String> = todo.iter().map(|(pi, f)| macro_program(*pi, *f)).collect();
+    let mut o = runner::Opts::run("c13m");
+    o.per_file = 10;
+    let res = runner::run_cases(&progs.iter().map(|p| runner::Case { code: p.clone() }).collect::<Vec<_>>(), &o);
+    let mut neutral: Vec<Option<String>> = vec![None; MACRO_PROGS.len()];
+    for (k, (pi, f)) in todo.iter().enumerate() {
+        if f.is_none() {
+            if res[k].output.is_none() {
+                crate::report::machinery(&format!("C13: the directly written program `{}` does not compile/run: {}", MACRO_PROGS[*pi].0, res[k].codes()));
+            }
+            neutral[*pi] = res[k].output.clone();
+        }
+    }
+    for (k, (pi, f)) in todo.iter().enumerate() {
+        rep.stats.states += 1;
+        rep.stats.transitions += 1;
+        rep.stats.terminals += 1;
+        rep.validated += 1;
+        rep.case(&progs[k], f.is_some());
+        let Some(f) = f else { continue };
+        let pname = MACRO_PROGS[*pi].0;
+        let what = format!("program `{pname}` generated by a macro_rules! macro (derive_ex in the macro body; names as ident fragments, the field type as a `{f}` fragment)");
+        let mut atoms = BTreeSet::new();
+        atoms.insert(format!("prog=macro/{pname}"));
+        atoms.insert(format!("fragment={f}"));
+        let detail = json!({"kind": "macro", "tier": ctx.tier.name(), "macro_prog": pi, "fragment": f, "source": progs[k]});
+        let r = &res[k];
+        if !r.compiled() {
+            rep.outcome(&format!("does-not-compile:{}", r.codes()));
+            atoms.insert(format!("group={}", r.codes()));
+            rep.violation(Violation { symptom: format!("macro-generated-program-does-not-compile:{}", r.codes()), atoms, what: format!("{what}: {}", r.errors().iter().map(|e| format!("{} {}", e.code, runner::first_line(&e.message))).collect::<Vec<_>>().join(" | ")), detail, standalone: Some(format!("mod case {{\n{}\n}}\nfn main() {{ case::run(); }}\n", progs[k])) });
+            continue;
+        }
+        if let Some(pn) = &r.panicked {
+            rep.violation(Violation { symptom: "panic".into(), atoms, what: format!("{what}: {pn}"), detail, standalone: None });
+            continue;
+        }
+        let want = neutral[*pi].clone().unwrap_or_default();
+        let got = r.output.clone().unwrap_or_default();
+        rep.inner_evaluations += 1;
+        if got != want {
+            rep.outcome("trace-differs");
+            rep.violation(Violation { symptom: "behaviour-changes-when-macro-generated".into(), atoms, what: format!("{what}: trace `{}` differs from the directly written program's `{}`", got.chars().take(200).collect::<String>(), want.chars().take(200).collect::<String>()), detail, standalone: None });
+        } else {
+            rep.outcome("same-trace-as-directly-written");
+        }
+    }
+}
+
 pub fn run(ctx: &Ctx, rep: &mut Report) {
     let thorough = ctx.tier.is_thorough();
     rep.rule = "terminal state = (one of 14 base programs covering every derivable trait with and without helper attributes on tuple/named structs, enums and a user impl, with type / const / lifetime parameters; zero, one (or two, thorough) roles [type, field, variant, type parameter, const parameter, lifetime] renamed to a name of the hostile dictionary [22 names the expansion introduces, 3 raw keywords, 14 prelude names, 4 lifetimes]; scope in {plain, module whose local items shadow prelude and core/std/alloc names, #![no_std] metadata-only crate}); oracle = the variant compiles and prints the same behaviour trace as the neutral program in the plain scope; distinct by program text; non-trivial = at least one renaming or a non-plain scope".into();
@@ -247,6 +430,14 @@ pub fn run(ctx: &Ctx, rep: &mut Report) {
     let mut cases: Vec<Case> = Vec::new();
     if let Some(p) = &ctx.replay {
         let v: serde_json::Value = serde_json::from_str(&std::fs::read_to_string(p).expect("replay file")).expect("replay json");
+        if v["case"]["kind"] == "macro" {
+            macro_generated(ctx, rep, Some((v["case"]["macro_prog"].as_u64().unwrap_or(0) as usize, v["case"]["fragment"].as_str().unwrap_or("ident").to_string())));
+            return;
+        }
+        if v["case"]["kind"] == "primitive" {
+            primitive_names(ctx, rep, Some((v["case"]["prim_prog"].as_u64().unwrap_or(0) as usize, v["case"]["name"].as_str().unwrap_or("bool").to_string())));
+            return;
+        }
         let vec: Vec<usize> = v["case"]["vector"].as_array().unwrap().iter().map(|x| x.as_u64().unwrap() as usize).collect();
         let th = v["case"]["tier"] == "thorough";
         let c = replay(|ch| gen(ch, th), &vec).unwrap_or_else(|| crate::report::machinery("replayed vector is pruned"));
@@ -328,6 +519,12 @@ pub fn run(ctx: &Ctx, rep: &mut Report) {
             }
         }
     }
+    if ctx.replay.is_none() {
+        primitive_names(ctx, rep, None);
+        macro_generated(ctx, rep, None);
+    }
     rep.set("base_programs", json!(PROGS.iter().map(|p| p.name).collect::<Vec<_>>()));
+    rep.set("macro_generated_programs", json!(MACRO_PROGS.iter().map(|p| p.0).collect::<Vec<_>>()));
+    rep.set("primitive_name_programs", json!(PRIM_PROGS.iter().map(|p| format!("{} ({})", p.0, p.1)).collect::<Vec<_>>()));
     rep.set("rustc_invocations", json!(runner::STATS.rustc_invocations.load(std::sync::atomic::Ordering::Relaxed)));
 }
